@@ -93,3 +93,22 @@ def init_gets(cls):
     except Exception as e:  # noqa: BLE001
         exc = e
     return [(f"{getattr(x[1], 'value', x[1])}", x[2]) for x in conn.sent if x[0] == "get"], exc, f"{getattr(obj.id, 'value', obj.id)}"
+
+
+def make_initialized(cls):
+    """a fresh object of `cls` on a stub connection, initialised (sync query answered synchronously) -> (obj, conn, subunit id)"""
+    from ynca.connection import YncaProtocolStatus
+    from .realobj import StubConnection
+
+    conn = StubConnection()
+    obj = cls(conn)
+    orig = conn.get
+
+    def get(subunit, funcname):
+        orig(subunit, funcname)
+        if f"{getattr(subunit, 'value', subunit)}" == "SYS" and funcname == "VERSION":
+            conn.deliver(YncaProtocolStatus.OK, "SYS", "VERSION", "1.0")
+    conn.get = get
+    obj.initialize()
+    conn.get = orig
+    return obj, conn, f"{getattr(obj.id, 'value', obj.id)}"
